@@ -123,6 +123,40 @@ theorem update_context_chained (p c : List (String × Ctx)) (hp : (Ctx.obj p).WF
     updateContext (.obj p) (.obj c) (.obj []) = deepMerge (.obj p) (.obj c) := by
   rw [updateContext, mergeDicts_three_right_empty, mergeDicts_binary _ _ hp hc]
 
+/-! chains of `update_context` / `partial` / `options` on the called task -/
+
+theorem deepMerge_obj_obj (p c : List (String × Ctx)) : ∃ m, deepMerge (.obj p) (.obj c) = .obj m := by
+  simp [deepMerge]
+
+theorem chain_aux (cs : List (List (String × Ctx))) : ∀ p : List (String × Ctx), (Ctx.obj p).WF →
+    (∀ c ∈ cs, (Ctx.obj c).WF) →
+    (cs.map fun c => ((Ctx.obj c, Ctx.obj []) : Ctx × Ctx)).foldl (fun prev s => updateContext prev s.1 s.2) (.obj p)
+      = cs.foldl (fun acc c => deepMerge acc (.obj c)) (.obj p) := by
+  induction cs with
+  | nil => intro p _ _; rfl
+  | cons c t ih =>
+    intro p hp hc
+    have hcw := hc c (by simp)
+    simp only [List.map_cons, List.foldl_cons]
+    rw [update_context_chained p c hp hcw]
+    obtain ⟨m, hm⟩ := deepMerge_obj_obj p c
+    rw [hm]
+    exact ih m (hm ▸ Context.deepMerge_wf _ _ hp hcw) (fun x hx => hc x (List.mem_cons_of_mem _ hx))
+
+/-- The override a call carries after a chain of `update_context(c₁)…update_context(cₙ)` (with `partial` / `options`
+anywhere in between) is the deep merge of ALL the overrides, in order: no earlier override is dropped. -/
+theorem override_of_chain (cs : List (List (String × Ctx))) (hc : ∀ c ∈ cs, (Ctx.obj c).WF) :
+    overrideOfChain (cs.map fun c => (Ctx.obj c, Ctx.obj [])) = cs.foldl (fun acc c => deepMerge acc (.obj c)) (.obj []) :=
+  chain_aux cs [] (by simp [Ctx.WF, wfKvs]) hc
+
+/-- the regression input: `update_context(p=1)`, then (after `.partial()`) `update_context(q=2)` keeps `p` -/
+example : overrideOfChain [(.obj [("p", .leaf "1")], .obj []), (.obj [("q", .leaf "2")], .obj [])]
+    = .obj [("p", .leaf "1"), ("q", .leaf "2")] := by
+  rw [show [(Ctx.obj [("p", .leaf "1")], Ctx.obj []), (Ctx.obj [("q", .leaf "2")], Ctx.obj [])]
+      = [[("p", Ctx.leaf "1")], [("q", Ctx.leaf "2")]].map (fun c => (Ctx.obj c, Ctx.obj [])) from rfl,
+    override_of_chain _ (by intro c hc; simp at hc; rcases hc with e | e <;> subst e <;> simp [Ctx.WF, wfKvs])]
+  simp [deepMerge, mergeKvs, List.lookup]
+
 /-- Remark (not part of the property statement): with three arguments `merge_dicts` is *not* the left fold
 of the binary merge when a non-mapping sits between mappings — `[{k:5}, {k:{x:1}}, {k:{y:2}}]` gives
 `{k:{y:2}}`, the fold gives `{k:{x:1,y:2}}`.  Reachable only through a single
